@@ -62,7 +62,13 @@ TDestroy == /\ IsEvent("Destroy")
             /\ Rec[l].leaked = 0
             /\ UNCHANGED vars
 
-TNext == TNew \/ TWriteBegin \/ TGrow \/ TWriteEnd \/ TFlush \/ TAcc \/ TDestroy
+\* the generated C / C++ method returned its string to the caller: exactly what Rust wrote (last sentence of C12)
+TReturned == /\ IsEvent("Returned")
+             /\ s.pc = "idle" /\ ~s.failed
+             /\ Rec[l].text = accepted
+             /\ UNCHANGED vars
+
+TNext == TNew \/ TWriteBegin \/ TGrow \/ TWriteEnd \/ TFlush \/ TAcc \/ TDestroy \/ TReturned
 TSpec == TInit /\ [][TNext]_tvars
 
 Accepted ==
